@@ -70,6 +70,9 @@ class Check:
         self.extra = {}
         self.quick = self.tier == 'quick'
         self.replay_dir = os.path.join(VERIF, 'replays', pid)
+        self.is_sub = False
+        self._pending_viol = []
+        self.extra_lists = {}
 
     # ---- engines
     def engine(self, which='lib', **kw):
@@ -114,6 +117,10 @@ class Check:
         for k, (t, _) in list(self._viol_index().items()):
             if k == key:
                 return
+        if self.is_sub:
+            self._pending_viol.append((key, text, dict(replay)))
+            self.violations.append((key, text, None))
+            return
         os.makedirs(self.replay_dir, exist_ok=True)
         path = os.path.join(self.replay_dir, re.sub(r'[^A-Za-z0-9_.-]+', '_', key)[:120] + '.json')
         replay = dict(replay)
@@ -125,6 +132,48 @@ class Check:
 
     def _viol_index(self):
         return {k: (t, p) for k, t, p in self.violations}
+
+    # ---- parallel jobs (fork; every job gets a private sub-check whose counters are merged afterwards)
+    def parallel(self, fn, items, procs=None):
+        import multiprocessing as mp
+        procs = procs or min(16, os.cpu_count() or 4, max(1, len(items)))
+        if procs <= 1 or len(items) <= 1 or os.environ.get('VERIF_SERIAL'):
+            for it in items:
+                fn(self, it)
+            return
+        global _PAR
+        _PAR = (self, fn)
+        ctx = mp.get_context('fork')
+        with ctx.Pool(procs) as pool:
+            for res in pool.imap_unordered(_par_worker, list(enumerate(items)), chunksize=1):
+                self._merge(res)
+
+    def _snapshot(self):
+        for e in getattr(self, '_engines', []):
+            self.absorb(e)
+        return {'obligations': self.obligations, 'discharged': self.discharged, 'undecided': self.undecided,
+                'violations': self._pending_viol, 'known_hits': self.known_hits, 'samples': self.samples,
+                'validated': self.validated, 'states': self.states, 'transitions': self.transitions,
+                'queries': self.queries, 'solver_s': self.solver_s, 'functions': self.functions,
+                'contracts': self.contracts, 'native_jobs': self.native.jobs_run, 'extra_lists': self.extra_lists}
+
+    def _merge(self, res):
+        if res.get('broken'):
+            raise Broken(res['broken'])
+        for k in ('obligations', 'discharged', 'validated', 'states', 'transitions', 'queries', 'solver_s'):
+            setattr(self, k, getattr(self, k) + res[k])
+        self.undecided += res['undecided']
+        self.known_hits.update(res['known_hits'])
+        for s_ in res['samples']:
+            self.sample(s_)
+        self.functions |= res['functions']
+        self.contracts |= res['contracts']
+        self.native.jobs_run += res['native_jobs']
+        for k, v in res['extra_lists'].items():
+            self.extra_lists.setdefault(k, []).extend(v)
+        for key, text, replay in res['violations']:
+            self.obligations -= 1      # violation() counts it again
+            self.violation(key, text, replay)
 
     # ---- finish
     def finish(self):
@@ -153,6 +202,7 @@ class Check:
             'build': os.path.basename(self.world.build),
         }
         cov.update(self.extra)
+        cov.update({k: v[:200] for k, v in self.extra_lists.items()})
         ev = {'property_id': self.pid, 'tier': self.tier, 'seed': self.seed, 'level': level, 'coverage': cov,
               'assumptions': self.assumptions, 'wall_s': round(wall, 2), 'violations': len(self.violations)}
         os.makedirs(os.path.join(VERIF, 'evidence'), exist_ok=True)
@@ -170,6 +220,34 @@ class Check:
               'validations, %.1fs' % (self.pid, self.tier, self.discharged, self.obligations, self.states,
                                       self.transitions, self.queries, self.solver_s, self.validated, wall))
         return 1 if self.violations else 0
+
+
+_PAR = None
+
+
+def _par_worker(arg):
+    idx, item = arg
+    parent, fn = _PAR
+    import copy
+    sub = copy.copy(parent)
+    sub.is_sub = True
+    sub.native = Native(parent.world)
+    sub.rng = random.Random(parent.seed * 1000003 + idx)
+    for k in ('obligations', 'discharged', 'validated', 'states', 'transitions', 'queries'):
+        setattr(sub, k, 0)
+    sub.solver_s = 0.0
+    sub.undecided, sub.violations, sub._pending_viol, sub.known_hits, sub.samples = [], [], [], {}, []
+    sub.functions, sub.contracts, sub._engines, sub.extra_lists = set(), set(), [], {}
+    try:
+        fn(sub, item)
+        out = sub._snapshot()
+    except Broken as b:
+        out = {'broken': str(b)}
+    except Exception:
+        out = {'broken': 'internal error in a parallel job:\n' + traceback.format_exc()}
+    finally:
+        sub.native.close()
+    return out
 
 
 def main(pid, body, level='model_checking'):
